@@ -568,10 +568,12 @@ func (hash Hash) String() string {
 }
 
 func (hash Hash) Equal(other Hash) bool {
+	// Hashes of different length are never equal: comparing only the common prefix would
+	// accept a truncated (or empty) hash in place of the expected one.
+	if len(hash) != len(other) {
+		return false
+	}
 	for i := range hash {
-		if i == len(other) {
-			break
-		}
 		if hash[i] != other[i] {
 			return false
 		}
